@@ -139,10 +139,69 @@ func runC07(c *an.Ctx) {
 // key (and its file) is written at most once in the life of a server directory.
 func registrationOneShot(c *an.Ctx, saver *ssa.Function) {
 	p := c.P
-	// call sites of the saver
+	// the three conditions at one program point, for the registration value X
+	type conds struct{ lock, flag, verify bool }
+	condsAt := func(fn *ssa.Function, at ssa.Instruction, X *an.Term) (conds, an.FactSet) {
+		fi := p.Info(fn)
+		lf := p.LockFlowOf(fn)
+		var cs conds
+		st := lf.StateAt(at, "GCAServer.mu")
+		cs.lock = st == an.LsDeferred || an.Held(st)
+		facts := fi.FactsAt(at)
+		for _, f := range facts {
+			if !f.Neg {
+				continue
+			}
+			if fld, ver, ok := mapFieldOfTerm(f.T); ok && fld == "gcaPubkeyAvailable" {
+				if ver == fi.VersionAt(at, an.Class{Root: "T:GCAServer", Path: []string{"gcaPubkeyAvailable"}}) {
+					cs.flag = true
+				}
+			}
+		}
+		for _, va := range verifyFacts(facts) {
+			if f, _, ok := mapFieldOfTerm(va[0]); ok && f == "gcaTempKey" {
+				if isSigningBytesOf(va[1], X) && va[2].Key() == fi.FieldOfTerm(X, "Signature").Key() {
+					cs.verify = true
+				}
+			}
+		}
+		return cs, facts
+	}
+	// inside the saver, at the first write of the key (file or field)
+	sfi := p.Info(saver)
+	var first ssa.Instruction
+	for _, b := range saver.Blocks {
+		for _, in := range b.Instrs {
+			isKeyWrite := false
+			switch x := in.(type) {
+			case *ssa.Call:
+				name := an.CalleeName(&x.Call)
+				isKeyWrite = (name == "io/ioutil.WriteFile" || name == "os.WriteFile") && sfi.PathFileName(x.Call.Args[0]) == "gcaPubKey.dat"
+			case *ssa.Store:
+				if f, ok := sfi.RefClass(x.Addr).FieldOf("GCAServer"); ok && (f == "gcaPubkey" || f == "gcaPubkeyAvailable") {
+					isKeyWrite = true
+				}
+			}
+			if isKeyWrite && (first == nil || an.Dominates(in, first)) {
+				first = in
+			}
+		}
+	}
+	var inSaver conds
+	if first != nil && len(saver.Params) > 0 {
+		inSaver, _ = condsAt(saver, first, sfi.Term(saver.Params[len(saver.Params)-1]))
+	}
 	sites := p.CallSites(saver)
 	c.Count("AUTH", len(sites))
 	c.Floor("AUTH", 1)
+	if inSaver.lock && inSaver.flag && inSaver.verify {
+		// the saver checks everything itself (the check-and-set is one function): nothing is required of its callers
+		key := func(x string) string { return an.KeyOf(saver, "register:"+x) }
+		c.Proved("AUTH", saver, first.Pos(), key("lock"), "the key is written with GCAServer.mu held", "lock state at the first write of the key")
+		c.Proved("AUTH", saver, first.Pos(), key("not-registered"), "the availability flag is known to be false in the same critical section as the store (atomic check-and-set: one winner, never replaced)", "facts at the first write of the key")
+		c.Proved("AUTH", saver, first.Pos(), key("temp-key"), "glow.Verify(gcaTempKey, gr.SigningBytes(), gr.Signature) for the registration that is saved dominates the write", "facts at the first write of the key")
+		return
+	}
 	for _, s := range sites {
 		call, ok := s.(*ssa.Call)
 		if !ok {
@@ -150,33 +209,12 @@ func registrationOneShot(c *an.Ctx, saver *ssa.Function) {
 		}
 		fn := call.Parent()
 		fi := p.Info(fn)
-		lf := p.LockFlowOf(fn)
 		key := func(x string) string { return an.KeyOf(fn, "register:"+x) }
-		st := lf.StateAt(call, "GCAServer.mu")
-		c.Check(st == an.LsDeferred || an.Held(st), "AUTH", fn, call.Pos(), key("lock"), "the key saver is called with GCAServer.mu held", "lock state at the call")
 		X := fi.Term(call.Call.Args[len(call.Call.Args)-1])
-		facts := fi.FactsAt(call)
-		okFlag := false
-		for _, f := range facts {
-			if !f.Neg {
-				continue
-			}
-			if fld, ver, ok := mapFieldOfTerm(f.T); ok && fld == "gcaPubkeyAvailable" {
-				if ver == fi.VersionAt(call, an.Class{Root: "T:GCAServer", Path: []string{"gcaPubkeyAvailable"}}) {
-					okFlag = true
-				}
-			}
-		}
-		c.Check(okFlag, "AUTH", fn, call.Pos(), key("not-registered"), "the availability flag is known to be false in the same critical section as the store (atomic check-and-set: one winner, never replaced)", "facts "+factList(facts))
-		okV := false
-		for _, va := range verifyFacts(facts) {
-			if f, _, ok := mapFieldOfTerm(va[0]); ok && f == "gcaTempKey" {
-				if isSigningBytesOf(va[1], X) && va[2].Key() == fi.FieldOfTerm(X, "Signature").Key() {
-					okV = true
-				}
-			}
-		}
-		c.Check(okV, "AUTH", fn, call.Pos(), key("temp-key"), "glow.Verify(gcaTempKey, gr.SigningBytes(), gr.Signature) for the registration that is saved dominates the call", "facts "+factList(facts))
+		cs, facts := condsAt(fn, call, X)
+		c.Check(cs.lock || inSaver.lock, "AUTH", fn, call.Pos(), key("lock"), "the key saver is called with GCAServer.mu held", "lock state at the call")
+		c.Check(cs.flag || inSaver.flag, "AUTH", fn, call.Pos(), key("not-registered"), "the availability flag is known to be false in the same critical section as the store (atomic check-and-set: one winner, never replaced)", "facts "+factList(facts))
+		c.Check(cs.verify || inSaver.verify, "AUTH", fn, call.Pos(), key("temp-key"), "glow.Verify(gcaTempKey, gr.SigningBytes(), gr.Signature) for the registration that is saved dominates the call", "facts "+factList(facts))
 	}
 }
 
